@@ -2,7 +2,7 @@
 From Coq Require Import List NArith Bool Arith Lia.
 Import ListNotations.
 Require Import XV.XpAst XV.GenXpc XV.XpcLexDefs XV.XpcParseDefs XV.XpcPrintDefs XV.XpcPrintFacts XV.XpcPrintModel.
-Require Import XV.PatcDefs XV.PatcPrintDefs XV.PatcPrintModel XV.PatcExprModel XV.PatcSemDefs.
+Require Import XV.PatcDefs XV.PatcPrintDefs XV.PatcPrintModel XV.PatcExprModel XV.PatcSemDefs XV.PatcShapeModel.
 Require XV.PatDefs XV.PatModel XV.PatModel2 XV.PatModel3.
 
 Definition interp_ok (I : interp) : Prop := forall p, PatModel.wf_pred (i_pred I p).
@@ -11,11 +11,11 @@ Lemma isnil_ne : forall (A : Type) (l : list A), negb (isnil l) = true -> l <> [
 Proof. intros A [|x l] H; [discriminate|discriminate]. Qed.
 
 (* the op codes the pattern compiler wrote are the ones PatDefs.compile derives from the surface path *)
-Lemma compile_steps_agree : forall I D r sp acc left, canon_psteps r = true ->
+Lemma compile_steps_agree : forall I D r sp acc left, shape_psteps r = true ->
   PatDefs.compile_steps D acc left (ssteps_of I sp r) = msteps_of I D acc left r.
 Proof.
   intros I D. induction r as [|[[k t] ps] r IH]; intros sp acc left Hc; [reflexivity|].
-  cbn [canon_psteps] in Hc. andbs Hc.
+  cbn [shape_psteps] in Hc. apply andb_prop in Hc. destruct Hc as [Hc Hrec]. apply andb_prop in Hc. destruct Hc as [Hk Hany].
   cbn [ssteps_of PatDefs.compile_steps msteps_of mstep_of sstep_of PatDefs.s_attr PatDefs.s_test PatDefs.s_preds].
   assert (E : (if is_attr_kind k then PatDefs.MAttr (i_test I t) (map (i_pred I) ps)
                else if PatDefs.next_is_desc (ssteps_of I (sep_behind (k, t, ps)) r)
@@ -29,13 +29,14 @@ Proof.
   { unfold sep_behind. cbn [fst]. destruct k; try discriminate; cbn [is_attr_kind is_any]; try reflexivity.
     - destruct r; reflexivity.
     - destruct r as [|s r']; [discriminate|]. reflexivity. }
-  rewrite E. f_equal. apply IH. exact Hc0.
+  rewrite E. f_equal. apply IH. exact Hrec.
 Qed.
 
-Lemma compile_agree : forall I D a, canon_lp a = true ->
+Lemma compile_agree_shape : forall I D a, shape_lp a = true ->
   PatDefs.compile D (path_of_lp I a) = compiled_of I D a.
 Proof.
-  intros I D a Hc. unfold canon_lp, path_of_lp, compiled_of in *. destruct (split_head a) as [h r]. andbs Hc.
+  intros I D a Hc. unfold shape_lp, path_of_lp, compiled_of in *. destruct (split_head a) as [h r].
+  apply andb_prop in Hc. destruct Hc as [Hc Hc0].
   unfold PatDefs.compile.
   destruct h as [| | |f|f]; cbn [PatDefs.p_head PatDefs.p_steps PatDefs.head_steps mhead_of].
   - cbn [app]. apply compile_steps_agree; auto.
@@ -45,10 +46,13 @@ Proof.
     rewrite N. f_equal. apply compile_steps_agree; auto.
   - assert (N : PatDefs.next_is_desc (ssteps_of I PatDefs.SChild r) = false) by (destruct r; reflexivity).
     rewrite N. f_equal. apply compile_steps_agree; auto.
-  - apply andb_prop in Hc0. destruct Hc0 as [_ Hne].
-    assert (N : PatDefs.next_is_desc (ssteps_of I PatDefs.SDesc r) = true) by (destruct r; [discriminate|reflexivity]).
+  - assert (N : PatDefs.next_is_desc (ssteps_of I PatDefs.SDesc r) = true) by (destruct r; [discriminate|reflexivity]).
     rewrite N. f_equal. apply compile_steps_agree; auto.
 Qed.
+
+Lemma compile_agree : forall I D a, canon_lp a = true ->
+  PatDefs.compile D (path_of_lp I a) = compiled_of I D a.
+Proof. intros I D a H. apply compile_agree_shape. apply canon_shape_lp. exact H. Qed.
 
 (* the expression steps are the pattern steps read as child / attribute / descendant-or-self::node() steps *)
 Lemma esteps_path_agree : forall I r sp, canon_psteps r = true -> (r = [] -> sp = PatDefs.SChild) ->
@@ -103,12 +107,15 @@ Proof.
   destruct Hp as [q [<- _]]. apply HI.
 Qed.
 
-Lemma path_of_lp_wf : forall I a, interp_ok I -> canon_lp a = true -> PatModel3.wf_path (path_of_lp I a).
+Lemma path_of_lp_wf_shape : forall I a, interp_ok I -> shape_lp a = true -> PatModel3.wf_path (path_of_lp I a).
 Proof.
-  intros I a HI Hc. unfold canon_lp, path_of_lp in *. destruct (split_head a) as [h r]. andbs Hc.
+  intros I a HI Hc. unfold shape_lp, path_of_lp in *. destruct (split_head a) as [h r].
+  apply andb_prop in Hc. destruct Hc as [Hc Hc0].
   destruct h as [| | |f|f]; split; cbn [PatDefs.p_steps]; try apply ssteps_wf; auto; try reflexivity.
   apply isnil_ne in Hc0. destruct r; [congruence|reflexivity].
 Qed.
+Lemma path_of_lp_wf : forall I a, interp_ok I -> canon_lp a = true -> PatModel3.wf_path (path_of_lp I a).
+Proof. intros I a HI H. apply path_of_lp_wf_shape; auto. apply canon_shape_lp. exact H. Qed.
 
 Lemma alts_of_expr_of : forall P, P <> [] -> forallb canon_lp P = true -> alts_of (expr_of P) = map expr_of_lp P.
 Proof.
@@ -118,18 +125,18 @@ Proof.
   destruct h; try reflexivity. destruct q; [|reflexivity]. destruct f; try discriminate Hc0. reflexivity.
 Qed.
 
-Theorem compose_m : forall fl ns P, pcanon P = true -> S (dep_pattern P) <= gen_xpc_max_nesting ->
-  pparse fl ns (ppr P) = Ok P /\ parse fl ns (ppr P) = Ok (expr_of P) /\
+Theorem compose_m : forall fl pf ns P, pcanon P = true -> S (dep_pattern P) <= gen_xpc_max_nesting ->
+  pparse fl pf ns (ppr P) = Ok P /\ parse fl ns (ppr P) = Ok (expr_of P) /\
   forall I D n, interp_ok I -> PatDefs.wf_doc D = true -> n < length D ->
     (pattern_matches I D P n = true <-> expr_selects I D (expr_of P) n).
 Proof.
-  intros fl ns P Hc Hd. split; [apply pattern_parse_print_m; auto; lia|].
+  intros fl pf ns P Hc Hd. split; [apply pattern_parse_print_m; auto; lia|].
   split; [apply pattern_as_expression_m; auto|].
   intros I D n HI W Hn.
   unfold pcanon in Hc. apply andb_prop in Hc. destruct Hc as [H1 H2]. apply isnil_ne in H1.
   assert (M : pattern_matches I D P n = PatDefs.matches D (map (path_of_lp I) P) n).
-  { unfold pattern_matches, PatDefs.matches. rewrite existsb_map_eq. 2: reflexivity.
-    clear H1. induction P as [|a r IH]; [reflexivity|].
+  { unfold pattern_matches, PatDefs.matches.
+    clear H1 Hd. induction P as [|a r IH]; [reflexivity|].
     cbn [forallb] in H2. apply andb_prop in H2. destruct H2 as [Ha Hr].
     cbn [existsb map]. unfold PatDefs.match_path at 1. rewrite (compile_agree I D a Ha). rewrite IH; auto. }
   rewrite M.
@@ -145,4 +152,24 @@ Proof.
   - intros (x & p & a0 & Hx & Hp & Ha & Hs). apply in_map_iff in Hx. destruct Hx as [a [<- Hin]].
     rewrite path_of_expr_agree in Hp by (rewrite forallb_forall in H2; apply H2; exact Hin).
     inversion Hp; subst. exists (path_of_lp I a), a0. repeat split; auto. apply in_map. exact Hin.
+Qed.
+
+(* for EVERY token list the pattern compiler accepts (no empty alternative): the matcher on the op codes it wrote says
+   "match" iff the surface path read back from those op codes selects the node from some ancestor-or-self context *)
+Theorem accepted_pattern_matches_iff_selects_m : forall fl pf ns ts P, pparse fl pf ns ts = Ok P -> no_empty_alt P = true ->
+  forall I D n, interp_ok I -> PatDefs.wf_doc D = true -> n < length D ->
+    (pattern_matches I D P n = true <-> PatDefs.selects D (map (path_of_lp I) P) n).
+Proof.
+  intros fl pf ns ts P H NE I D n HI W Hn.
+  pose proof (compiled_shape_m fl pf ns ts P H) as Sh.
+  assert (Sh2 : forall a, In a P -> shape_lp a = true).
+  { intros a Ha. rewrite Forall_forall in Sh. destruct (Sh a Ha) as [->|S]; [|exact S].
+    unfold no_empty_alt in NE. rewrite forallb_forall in NE. specialize (NE [] Ha). discriminate. }
+  assert (M : pattern_matches I D P n = PatDefs.matches D (map (path_of_lp I) P) n).
+  { unfold pattern_matches, PatDefs.matches. clear H NE Sh.
+    induction P as [|a r IH]; [reflexivity|].
+    cbn [existsb map]. unfold PatDefs.match_path at 1. rewrite (compile_agree_shape I D a (Sh2 a (or_introl eq_refl))).
+    rewrite IH; auto. intros b Hb. apply Sh2. right. exact Hb. }
+  rewrite M. apply PatModel3.matches_iff_selects; auto.
+  intros p Hp. apply in_map_iff in Hp. destruct Hp as [a [<- Ha]]. apply path_of_lp_wf_shape; auto.
 Qed.
